@@ -23,6 +23,10 @@ func (k Keeper) updateBaseFeeForNextBlock(ctx sdk.Context) {
 	k.SetBaseFee(ctx, baseFee)
 
 	defer func() {
+		if !baseFee.IsInt64() {
+			// the gauge can not represent it, and Int64() would panic
+			return
+		}
 		telemetry.SetGauge(func() float32 {
 			return float32(baseFee.Int64())
 		}(), "feemarket", "base_fee")
